@@ -93,6 +93,11 @@ def plans_c17(prop, tier, seed):
              consts=base_consts(NR=2, Writer0=[1, 2], Lid=["X"] * 2, Denied=[set()] * 2, MaxE=4, MaxOps=6 if q else 7,
                                 PCs={1, 2}, PubOn={1, 2}),
              max_scripts=4000 if q else 40000),
+        # the store refuses individual block writes: what was returned before stays loadable, the store stays closed
+        dict(name="writefault", audit="c17", mode="all",
+             consts=base_consts(NR=2, Writer0=[1, 2], Lid=["X"] * 2, Denied=[set()] * 2, MaxE=3, MaxOps=6 if q else 7,
+                                PCs={1, 2}, PubOn={1}, WriteFaults=True),
+             max_scripts=4000 if q else 40000),
         dict(name="crash3", audit="c17", mode="all",
              consts=base_consts(MaxE=4 if q else 5, MaxOps=6 if q else 8, PCs={1, 4}, PubOn={1}, Fn="HASH"),
              max_scripts=1500 if q else 30000),
